@@ -141,10 +141,13 @@ package inputrc
 //@ lemma meta_roundtrip(c rune): ismeta(c) ==> enmeta(demeta(c)) == c && 0 <= demeta(c) && demeta(c) <= 127
 //@   props C19
 
+// unescs names the result of Unescape (a pure function of its argument)
+//@ spec unescs(s string) string
 //@ func Unescape
-//@   props C12 C19
+//@   props C12 C19 C03 C18
 //@   terminates
 //@   pure
+//@   defines unescs
 //@   ensures @C19 [one-token] simpletok(runes(s)) ==> result == str(decr1(runes(s)))
 
 // ---------------------------------------------------------------------------------------
